@@ -74,6 +74,6 @@ def dependent_required(*groups: Collection[Any], owner: Optional[type] = None): 
         for group in map(list, groups):
             for i, field in enumerate(group):
                 check_field_or_name(field)
-                dep_req.append((field, [group[:i], group[i:]]))
+                dep_req.append((field, group[:i] + group[i + 1 :]))
         # use __setitem__ in order to reset the cache
         _dependent_requireds[owner] = dep_req
